@@ -239,12 +239,14 @@ func (fr *Frame) lockEvent(in ssa.Instruction, mu *Val, acquire bool) {
 	}
 	key := mu.P.Heap + "@" + mu.P.Ref
 	if !acquire {
+		fr.lockInvariant(in, mu, false)
 		delete(fr.held, key)
 		return
 	}
 	fr.held[key] = true
 	vc.acquired[key]++
 	guarded := vc.guardedBy(mu.P.Heap)
+	defer fr.lockInvariant(in, mu, true)
 	if len(guarded) == 0 || vc.acquired[key] < 2 {
 		return
 	}
@@ -303,4 +305,46 @@ func (fr *Frame) locksetCheck(in ssa.Instruction, p *Ptr, what string) {
 // guardedBy returns the heap names declared `guarded <mutexfield>: f1, f2` for the mutex field.
 func (vc *VC) guardedBy(muHeap string) []string {
 	return vc.guards[muHeap]
+}
+
+// lockInvariant assumes the declared invariant of a mutex after acquiring it and
+// generates the obligation to re-establish it before releasing it.
+func (fr *Frame) lockInvariant(in ssa.Instruction, mu *Val, acquire bool) {
+	vc := fr.vc
+	if fr.c == nil {
+		return
+	}
+	for k, li := range vc.P.CS.LockInvs {
+		// mutex heap name: F|<pkg>.<Type>|<field>
+		j := strings.LastIndex(li.Mutex, ".")
+		if j < 0 {
+			continue
+		}
+		hn := "F|" + li.Pkg + "." + li.Mutex[:j] + "|" + li.Mutex[j+1:]
+		if hn != mu.P.Heap {
+			continue
+		}
+		t, err := vc.P.ResolveType(li.Pkg, "*"+li.Mutex[:j])
+		if err != nil {
+			continue
+		}
+		env := fr.specEnvHere()
+		env.bound[li.Recv] = &Val{T: mu.P.Ref, Typ: t}
+		cond := env.evalBool(li.Cl.E)
+		if acquire {
+			fr.assume(cond)
+			vc.Assumptions["other threads re-establish every declared lock invariant before releasing the mutex (rely); this code is proved to do the same (guarantee)"] = true
+			continue
+		}
+		ck := "lockinv@" + FuncName(fr.fn)
+		n := vc.callCount[ck]
+		vc.callCount[ck] = n + 1
+		pos := vc.P.SSA.Fset.Position(in.Pos())
+		anchor := fmt.Sprintf("#%d/inv%d", n, k)
+		if fr.inlined {
+			anchor = FuncName(fr.fn) + anchor
+		}
+		vc.addObl(&Obligation{Kind: "lockinv", Anchor: anchor, Props: fr.c.Props, Desc: fmt.Sprintf("invariant of %s holds at release: %s (%s:%d)", li.Mutex, li.Cl.Src, shortFile(pos.Filename), pos.Line),
+			File: pos.Filename, Line: pos.Line, Goals: []Goal{{fr.here(), cond}}, Mark: vc.S.Mark()})
+	}
 }
